@@ -8,6 +8,15 @@ import (
 	"sort"
 )
 
+import (
+	"bytes"
+	"runtime"
+	"strconv"
+	"sync"
+
+	"github.com/couchbase/sync_gateway/base"
+)
+
 // helpers for verification hooks (build tag `verif`)
 
 func verifObj(p any) string { return fmt.Sprintf("%T@%p", p, p) }
@@ -122,4 +131,88 @@ func (c *changeCache) verifState() []any {
 	sort.Slice(recv, func(i, j int) bool { return recv[i] < recv[j] })
 	return []any{"init", c.initialSequence, "next", c.nextSequence, "pend", pend, "recv", recv, "skip", c.verifSkipped(),
 		"stable", c._getMaxStableCached(c.logCtx), "hcs", c.channelCache.GetHighCacheSequence(), "mn", c.options.CachePendingSeqMaxNum}
+}
+
+// ---- H3: revision cache (db/revision_cache_lru.go, db/revision_cache_orchestrator.go) ----
+// One event per atomic step of the revision cache. Every hooked step (an rc.lock section, or a lock-free atomic update of
+// memState / itemBytes / the gauges) runs between verifAtomLock and verifAtomUnlock, so that the recorded order of events is
+// the order in which the steps took effect. Lock order: rc.lock or value.lock, then verifAtomMu; never the other way round.
+
+var verifAtomMu sync.Mutex
+
+func verifAtomLock()   { verifAtomMu.Lock() }
+func verifAtomUnlock() { verifAtomMu.Unlock() }
+
+// verifG is the id of the calling goroutine (events of one API call share it).
+func verifG() uint64 {
+	var buf [64]byte
+	b := buf[:runtime.Stack(buf[:], false)]
+	b = bytes.TrimPrefix(b, []byte("goroutine "))
+	if i := bytes.IndexByte(b, ' '); i > 0 {
+		if n, err := strconv.ParseUint(string(b[:i]), 10, 64); err == nil {
+			return n
+		}
+	}
+	return 0
+}
+
+// verifPtr identifies a cache value by its address (0 = none).
+func verifPtr(v *revCacheValue) string {
+	if v == nil {
+		return ""
+	}
+	return fmt.Sprintf("%p", v)
+}
+
+func verifBytes(v *revCacheValue) int64 {
+	if v == nil {
+		return 0
+	}
+	return v.getItemBytes()
+}
+
+func verifCV(v *Version) string {
+	if v == nil {
+		return ""
+	}
+	return v.String()
+}
+
+// verifRCObj names a cache instance: its address and that of its list (an address alone can be reused by a later instance).
+func verifRCObj(rc *LRURevisionCache) string { return fmt.Sprintf("%T@%p/%p", rc, rc, rc.lruList) }
+
+// verifRCCall records the entry of an API call with the configuration of the cache; st / mc identify the item gauge and the
+// memory controller (tests and shards may share them between caches).
+func verifRCCall(rc *LRURevisionCache, op string, docID string, ver string) {
+	base.VerifEmit(verifRCObj(rc), "Call", "g", verifG(), "op", op, "doc", docID, "ver", ver, "cap", rc.capacity, "maxBytes", rc.memoryController.capacity,
+		"st", fmt.Sprintf("%p", rc.cacheNumItems), "mc", fmt.Sprintf("%p", rc.memoryController))
+}
+
+func verifRCRet(rc *LRURevisionCache) {
+	base.VerifEmit(verifRCObj(rc), "Ret", "g", verifG())
+}
+
+// verifRCLocked records a step made while rc.lock is held: list and map sizes are read under that lock.
+func verifRCLocked(rc *LRURevisionCache, ev string, v *revCacheValue, kv ...any) {
+	kv = append(kv, "g", verifG(), "vid", verifPtr(v), "len", rc.lruList.Len(), "maplen", len(rc.cache),
+		"items", rc.cacheNumItems.Value(), "total", rc.memoryController.bytesInUseForShard.Load())
+	if v != nil {
+		kv = append(kv, "msnow", v.memState.Load())
+	}
+	base.VerifEmit(verifRCObj(rc), ev, kv...)
+}
+
+// verifRCAtomic records a lock-free step (memState / itemBytes / gauge update): only atomics are read.
+func verifRCAtomic(rc *LRURevisionCache, ev string, v *revCacheValue, kv ...any) {
+	kv = append(kv, "g", verifG(), "vid", verifPtr(v), "items", rc.cacheNumItems.Value(), "total", rc.memoryController.bytesInUseForShard.Load())
+	if v != nil {
+		kv = append(kv, "msnow", v.memState.Load())
+	}
+	base.VerifEmit(verifRCObj(rc), ev, kv...)
+}
+
+// verifVal records a step made under the value lock (load, store); the cache it belongs to is the one that created vid.
+func verifVal(v *revCacheValue, ev string, kv ...any) {
+	kv = append(kv, "g", verifG(), "vid", verifPtr(v), "msnow", v.memState.Load())
+	base.VerifEmit("revCacheValue", ev, kv...)
 }
